@@ -473,6 +473,13 @@ class World(object):
                             bool(hs.get('ignore', False)))
         if hooks:
             opts['hooks'] = hooks
+        sconf = wc.get('stream_conf')
+        if sconf:
+            # a stream given by configuration (file name ...), as in an ini
+            for ch, conf in sconf.items():
+                opts['%s_stream' % ch] = dict(
+                    (k, v.replace('@SCRATCH@', self.scratch_dir())
+                     if isinstance(v, str) else v) for k, v in conf.items())
         streams = wc.get('streams')
         if streams:
             for ch in ('stdout', 'stderr'):
